@@ -241,6 +241,7 @@ Proof.
   destruct (token_by_minunit s denom) as [tb|]; [|discriminate].
   destruct (get (t_minunit tb) (registry s)) as [[target ratio]|]; [|discriminate].
   destruct (token_by_minunit s target) as [tm|]; [|discriminate].
+  inv_if H.
   destruct (lossless_swap amt ratio (t_scale tb) (t_scale tm)) as [b mt].
   inv_if H. inv_bind H. inv_bind H. inv_bind H.
   eapply bank_only_trans; [eapply bank_send_only; eassumption|].
